@@ -29,7 +29,7 @@ ASSUMPTIONS = [
     "ACL patterns never split the rows of one rulebook (rule,key): they are the rulebook's patterns, widened (*, truncation + ~) or narrowed to one key",
     "rulebook logics emit only the row or its negation (default, undo_redo, ordered)",
 ]
-FLOORS = {"quick": {"patches_checked": 2000, "commands_checked": 3000, "uncovered_rows_checked": 3000, "cant_delete_rows_checked": 150, "composition_checked": 2000, "front_runs_with_acl": 300, "front_runs_empty_acl": 10, "front_runs_acl_safe": 150, "flat_vendor_cases": 400, "flat_cases_with_negated_rows_in_new": 80, "second_devices_with_shared_acl": 800, "shared_subrule_acl_cases": 300, "front_runs_filter_acl": 150, "deploy_front_runs": 500, "cases_with_negated_rows_in_new": 400, "front_runs_with_generator_selection": 150},
+FLOORS = {"quick": {"patches_checked": 2000, "commands_checked": 3000, "uncovered_rows_checked": 3000, "cant_delete_rows_checked": 150, "composition_checked": 2000, "front_runs_with_acl": 300, "front_runs_empty_acl": 10, "front_runs_acl_safe": 150, "flat_vendor_cases": 400, "flat_cases_with_negated_rows_in_new": 80, "cases_with_literal_acl_rules_holding_a_slash_or_a_hash": 400, "second_devices_with_shared_acl": 800, "shared_subrule_acl_cases": 300, "front_runs_filter_acl": 150, "deploy_front_runs": 500, "cases_with_negated_rows_in_new": 400, "front_runs_with_generator_selection": 150},
           "thorough": {"patches_checked": 60000, "commands_checked": 90000, "uncovered_rows_checked": 90000, "cant_delete_rows_checked": 4000, "composition_checked": 60000}}
 VENDORS = c01.BLOCK_VENDORS
 
@@ -61,7 +61,7 @@ def add_shared_subrule(rng, acl, U):
     return True
 
 
-def make_case(seed, flat=False, shared=False):
+def make_case(seed, flat=False, shared=False, literal=False):
     rng = random.Random(seed)
     if flat:
         vname = sorted(c01.FLAT_VENDORS)[rng.randrange(len(c01.FLAT_VENDORS))]
@@ -87,7 +87,29 @@ def make_case(seed, flat=False, shared=False):
     mutated = G.mutate_tree(rng, old, U, rate=0.5)
     if shared:
         add_shared_subrule(random.Random(seed ^ 0x5A), acl, U)
+    if literal:
+        add_literal_rules(random.Random(seed ^ 0x117), U, old, acl, mutated)
     return vname, U, old, acl, mutated
+
+
+def add_literal_rules(rng, U, old, acl, mutated):
+    """ACL rules naming one port literally (`iface 1/0/1`: a slash is an ordinary character of a literal rule) and one kind of description
+    (`descr #annet ~`: a `#` inside a rule is text); the device also holds ports and descriptions that merely continue or share those words"""
+    from collections import OrderedDict as odict
+    U.append(RB.Rule("iface *", children=[RB.Rule("descr ~"), RB.Rule("mtu *")]))
+    ports = ["1/0/1", "1/0/10", "1/0/11", "1/0/1.100", "2/0/1"]
+    for tree, suffix in ((old, "a"), (mutated, "b")):
+        for p_ in ports:
+            ch = odict()
+            ch["descr %s %s" % (rng.choice(["#annet", "hand", "#annetx"]), suffix if rng.random() < 0.7 else "same")] = odict()
+            ch["mtu %d" % (1500 if suffix == "a" or rng.random() < 0.5 else 9000)] = odict()
+            tree["iface " + p_] = ch
+    owned = rng.sample(ports, rng.randint(1, 2))
+    for p_ in owned:
+        kids = [A.AclRule(rng.choice(["descr #annet ~", "descr ~"]), gens=["gL"])]
+        if rng.random() < 0.5:
+            kids.append(A.AclRule("mtu *", gens=["gL"]))
+        acl.append(A.AclRule("iface " + p_, children=kids, gens=["gL"]))
 
 
 def _walk(level):
@@ -179,11 +201,13 @@ def add_exact_negations(rng, tree, prefix, rate):
     return out
 
 
-def check_case(seed, acc, flat=False, shared=False, negnew=False):
+def check_case(seed, acc, flat=False, shared=False, negnew=False, literal=False):
     from annet.api import _diff_and_patch
     from annet.annlib.rbparser.acl import compile_acl_text
     from annet.annlib.patching import apply_acl
-    vname, U, old, acl, mutated = make_case(seed, flat, shared)
+    vname, U, old, acl, mutated = make_case(seed, flat, shared, literal)
+    if literal:
+        acc.count("cases_with_literal_acl_rules_holding_a_slash_or_a_hash")
     if shared:
         acc.count("shared_subrule_acl_cases")
     v, prefix, exitw, hw, fmt = c01.vendor_env(vname)
@@ -200,7 +224,7 @@ def check_case(seed, acc, flat=False, shared=False, negnew=False):
     rtext, atext = RB.render(U_text if (flat and negnew) else U), A.render(acl)
     if not atext.strip():
         return None
-    w = {"seed": seed, "flat": flat, "shared": shared, "negnew": negnew, "vendor": vname, "rulebook": rtext, "acl": atext, "old": plain(old)}
+    w = {"seed": seed, "flat": flat, "shared": shared, "literal": literal, "negnew": negnew, "vendor": vname, "rulebook": rtext, "acl": atext, "old": plain(old)}
     if flat:
         acc.count("flat_vendor_cases")
     try:
@@ -489,7 +513,7 @@ def run_shard(spec, acc):
             check_front(spec["witness"]["seed"], acc, safe=bool(spec["witness"].get("safe")), filt=bool(spec["witness"].get("filt")), sel=bool(spec["witness"].get("sel")))
         else:
             check_case(spec["witness"]["seed"], acc, flat=bool(spec["witness"].get("flat")), shared=bool(spec["witness"].get("shared")),
-                       negnew=bool(spec["witness"].get("negnew")))
+                       negnew=bool(spec["witness"].get("negnew")), literal=bool(spec["witness"].get("literal")))
         return
     tier, k, n = spec["tier"], spec["shard"], spec["nshards"]
     total = 2400 if tier == "quick" else 70000
@@ -513,4 +537,6 @@ def run_shard(spec, acc):
         if j % 4 == 1:
             check_case(rng.randrange(1 << 48), acc, negnew=True)
         if j % 8 == 6:
-            check_case(rng.randrange(1 << 48), acc, flat=True, negnew=True)  # `delete <statement>` rows in a Junos-like generator output
+            check_case(rng.randrange(1 << 48), acc, flat=True, negnew=True)
+        if j % 4 == 3:
+            check_case(rng.randrange(1 << 48), acc, literal=True)  # `delete <statement>` rows in a Junos-like generator output
